@@ -635,7 +635,7 @@ class Interp:
 
     def iter_values(self, it, node):
         """Concrete-length iteration: list of element values, or None if length is symbolic."""
-        if isinstance(it, (list, tuple, range, str, dict)):
+        if isinstance(it, (list, tuple, range, str, dict, type({}.values()), type({}.keys()), type({}.items()), set, frozenset)):
             return list(it)
         if isinstance(it, bytes):
             return list(it)
